@@ -262,17 +262,12 @@ def worker(case):
     with warnings.catch_warnings():
         warnings.simplefilter("ignore")
         k = case[0]
-        if k == "axioms":
-            return check_axioms(*case[1:])
-        if k == "tone":
-            return check_tone(case[1])
-        if k == "tone-modulate":
-            return check_tone_modulate(case[1], case[2])
-        if k == "fall":
-            return check_fall(*case[1:])
-        if k == "fall-eom":
-            return check_fall_eom(*case[1:])
-    return []
+        fn = {"axioms": check_axioms, "tone": check_tone, "tone-modulate": check_tone_modulate, "fall": check_fall,
+              "fall-eom": check_fall_eom}.get(k)
+        if fn is None:
+            return []  # unknown kind: the vacuity guard of gridx.run reports it
+        r = fn(*case[1:])
+        return r if r else [("@" + k, "")]
 
 
 # ---- sequences -----------------------------------------------------------------------------------
